@@ -29,7 +29,7 @@ package keeper
 //@ func (Keeper).ModifyParam
 //@   props C36,C12
 //@   modifies all
-//@   ensures [only-owner-writes] paramUpdN != old(paramUpdN) ==> owns(ctxACL(ctx), aclKey, bytes(owner))
+//@   ensures [only-owner-writes] paramUpdN != old(paramUpdN) ==> old(owns(ctxACL(ctx), aclKey, bytes(owner)))
 //@   ensures [at-most-one-write] paramUpdN == old(paramUpdN) || paramUpdN == old(paramUpdN) + 1
 
 //@ func (Keeper).DAOTransferFrom
